@@ -374,3 +374,9 @@ PLAN["C05"]["units"] = PLAN["C05"]["units"] + ["hypercorn.app_wrappers:ASGIWrapp
 # C17 "script name and path split by root_path": the split assumes a normalised root_path (every source)
 PLAN["C17"]["standins"] = PLAN["C17"].get("standins", []) + [{"file": "standins/root_path.py", "name": "root_path read back from every configuration source has no trailing slash",
                                                                "label": "BOUNDED stand-in, not counted as proved"}]
+# C01 "for every way the request bytes are split across network reads": what HTTP/2 is fed after a
+# cleartext switch is everything h11 had buffered (C13.handover.bytes), not the last read
+PLAN["C01"]["units"] = PLAN["C01"]["units"] + [PWR + "handle"]
+# C18 "a request head still incomplete after h11_max_incomplete_size bytes is rejected": every read
+# is followed by the event loop in which h11 checks the limit
+PLAN["C18"]["units"] = PLAN["C18"]["units"] + [H1P + "handle"]
